@@ -543,7 +543,7 @@ theorem effectiveDesc_bool_kw (d0 : DescObj) (n : String) (b : Bool) (kw : DescK
   all_goals
     simp only [Obj.DescKw.boolOf, String.reduceEq, if_true, if_false] at hk
     unfold effectiveDesc getB getOptI getOptS
-    simp [Obj.DescKw.withBool, get_set_eq, get_set_ne, hk, cvTruthy]
+    simp [Obj.DescKw.withBool, get_set_eq, get_set_ne, hk, cvTruthy] <;> rfl
 
 theorem desc_bool_names : ∀ n ∈ descBoolNames,
     n ∈ Gen.PLSSDESC_ATTRIBUTES ∧ n ≠ "layout" ∧ n ≠ "wait_to_parse" := by decide
@@ -746,55 +746,92 @@ theorem ofTextLines_append (acc : Cfg) (l1 l2 : List Str) :
     | error e => rfl
     | ok a => exact ih a
 
-theorem parse_qq_item (acc : Cfg) : ofTextLine acc (S "parse_qq") = .ok (acc.set "parse_qq" (.b true)) :=
-  item_bool acc "parse_qq" true (by decide) (by decide)
+/-- a bare Boolean item switches its setting on -/
+theorem bool_item (acc : Cfg) (x : String) (hx : x ∈ Gen.CONFIG_ATTRIBUTES) (hb : isBoolAttr x.toList = true) :
+    ofTextLine acc x.toList = .ok (acc.set x (.b true)) := by
+  have h := item_bool acc x true hx hb
+  have hl : attribAndValToStr x (some (.b true)) = x.toList := by simp [attribAndValToStr, hb, cvTruthy]
+  rwa [hl] at h
 
-/-- `",parse_qq"` appended to the text of a well-formed config parses as that config with `parse_qq` switched on -/
-theorem ofText_toText_parse_qq (c : Cfg) (h : CfgWF c) :
-    ∃ c', ofText (toText c ++ S ",parse_qq") = .ok c' ∧
-      ∀ b ∈ Gen.CONFIG_ATTRIBUTES, c'.get b = (c.set "parse_qq" (.b true)).get b := by
+/-- the text `",x1,x2,…"` of extra bare items appended to a config text -/
+def extraText (xs : List String) : Str := xs.flatMap (fun x => ',' :: x.toList)
+
+/-- switching on every listed Boolean setting -/
+def setAll (c : Cfg) (xs : List String) : Cfg := xs.foldl (fun a x => a.set x (.b true)) c
+
+theorem pyJoin_extras (xs : List String) : ∀ (parts : List Str), parts ≠ [] →
+    pyJoin (S ",") parts ++ extraText xs = pyJoin (S ",") (parts ++ xs.map String.toList) := by
+  induction xs with
+  | nil => intro parts _; simp [extraText]
+  | cons x rest ih =>
+    intro parts hne
+    have h1 : extraText (x :: rest) = S "," ++ x.toList ++ extraText rest := by
+      simp [extraText, List.flatMap_cons, S]
+    rw [h1, ← List.append_assoc, ← List.append_assoc, ← pyJoin_snoc parts x.toList hne, ih (parts ++ [x.toList]) (by simp)]
+    simp
+
+theorem ofTextLines_extras (xs : List String)
+    (hx : ∀ x ∈ xs, x ∈ Gen.CONFIG_ATTRIBUTES ∧ isBoolAttr x.toList = true) :
+    ∀ acc : Cfg, ofTextLines acc (xs.map String.toList) = .ok (setAll acc xs) := by
+  induction xs with
+  | nil => intro acc; rfl
+  | cons x rest ih =>
+    intro acc
+    have hx0 := hx x List.mem_cons_self
+    simp only [List.map_cons, ofTextLines, bool_item acc x hx0.1 hx0.2]
+    exact ih (fun y hy => hx y (List.mem_cons_of_mem _ hy)) _
+
+theorem setAll_get_congr (xs : List String) : ∀ (c c' : Cfg),
+    (∀ b ∈ Gen.CONFIG_ATTRIBUTES, c'.get b = c.get b) →
+    ∀ b ∈ Gen.CONFIG_ATTRIBUTES, (setAll c' xs).get b = (setAll c xs).get b := by
+  induction xs with
+  | nil => intro c c' h; exact h
+  | cons x rest ih =>
+    intro c c' h
+    apply ih (c.set x (.b true)) (c'.set x (.b true))
+    intro b hb
+    by_cases hbx : b = x
+    · subst hbx; rw [get_set_eq, get_set_eq]
+    · have : x ≠ b := fun e => hbx e.symm
+      rw [get_set_ne _ _ _ _ this, get_set_ne _ _ _ _ this, h b hb]
+
+theorem ofText_pyJoin_extras (P : List Str) (hne : P ≠ []) (hch : ∀ w ∈ P, ∀ ch ∈ w, sep0 ch = false)
+    (acc' : Cfg) (hl : ofTextLines [] P = .ok acc') (xs : List String)
+    (hx : ∀ x ∈ xs, x ∈ Gen.CONFIG_ATTRIBUTES ∧ isBoolAttr x.toList = true) :
+    ofText (pyJoin (S ",") P ++ extraText xs) = .ok (setAll acc' xs) := by
+  rw [pyJoin_extras xs P hne]
+  unfold ofText
+  rw [textItems_join _ (by simp [hne])]
+  · rw [ofTextLines_append, hl]
+    exact ofTextLines_extras xs hx acc'
+  · intro w hw
+    rcases List.mem_append.1 hw with hw | hw
+    · exact hch w hw
+    · obtain ⟨x, hxm, rfl⟩ := List.mem_map.1 hw
+      intro ch hc
+      exact safe_sep0 ch ((T1 x (hx x hxm).1).1 ch hc)
+
+/-- extra bare Boolean items appended to the text of a well-formed config parse as that config with those settings
+    switched on -/
+theorem ofText_toText_extras (c : Cfg) (h : CfgWF c) (xs : List String)
+    (hx : ∀ x ∈ xs, x ∈ Gen.CONFIG_ATTRIBUTES ∧ isBoolAttr x.toList = true) :
+    ∃ c', ofText (toText c ++ extraText xs) = .ok c' ∧
+      ∀ b ∈ Gen.CONFIG_ATTRIBUTES, c'.get b = (setAll c xs).get b := by
   obtain ⟨acc', h1, h2⟩ := fold_items c h Gen.CONFIG_ATTRIBUTES (fun a ha => ha) []
   have hget : ∀ b ∈ Gen.CONFIG_ATTRIBUTES, acc'.get b = c.get b := by
     intro b hb
     rw [h2 b]
     simp [hb, get_nil]
-  have hfin : ∀ b ∈ Gen.CONFIG_ATTRIBUTES,
-      (acc'.set "parse_qq" (.b true)).get b = (c.set "parse_qq" (.b true)).get b := by
-    intro b hb
-    by_cases hbp : b = "parse_qq"
-    · subst hbp; rw [get_set_eq, get_set_eq]
-    · have : "parse_qq" ≠ b := fun e => hbp e.symm
-      rw [get_set_ne _ _ _ _ this, get_set_ne _ _ _ _ this, hget b hb]
-  refine ⟨acc'.set "parse_qq" (.b true), ?_, hfin⟩
+  refine ⟨setAll acc' xs, ?_, setAll_get_congr xs c acc' hget⟩
   rw [toText_eq]
-  unfold ofText
   by_cases hne : itemsOf c Gen.CONFIG_ATTRIBUTES = []
   · rw [hne] at h1 ⊢
-    have hacc : acc' = [] := by
-      simp only [ofTextLines] at h1
-      injection h1 with h1
-      exact h1.symm
-    subst hacc
-    have ht : textItems (pyJoin (S ",") [] ++ S ",parse_qq") = [[], S "parse_qq"] := by
-      rw [textItems_eq]; decide
-    rw [ht]
-    simp only [ofTextLines]
-    have h0 : ofTextLine [] [] = .ok [] := rfl
-    rw [h0]
-    simp only [parse_qq_item]
-  · have hj : pyJoin (S ",") (itemsOf c Gen.CONFIG_ATTRIBUTES) ++ S ",parse_qq"
-        = pyJoin (S ",") (itemsOf c Gen.CONFIG_ATTRIBUTES ++ [S "parse_qq"]) := by
-      rw [pyJoin_snoc _ _ hne, List.append_assoc]
-      rfl
-    rw [hj, textItems_join _ (by simp)]
-    · rw [ofTextLines_append, h1]
-      simp only [ofTextLines, parse_qq_item]
-    · intro w hw
-      rcases List.mem_append.1 hw with hw | hw
-      · exact itemsOf_chars c h _ (fun a ha => ha) w hw
-      · have : w = S "parse_qq" := by simpa using hw
-        subst this
-        decide
+    have hP : pyJoin (S ",") ([] : List Str) = pyJoin (S ",") [[]] := rfl
+    rw [hP]
+    apply ofText_pyJoin_extras [[]] (by simp) (by intro w hw; simp at hw; subst hw; intro ch hc; cases hc) acc' _ xs hx
+    simp only [ofTextLines] at h1 ⊢
+    exact h1
+  · exact ofText_pyJoin_extras _ hne (itemsOf_chars c h _ (fun a ha => ha)) acc' h1 xs hx
 
 theorem set_wf (c : Cfg) (a : String) (v : CV) (h : CfgWF c) (hv : wellFormedEntry (a, v) = true) : CfgWF (c.set a v) := by
   induction c with
@@ -835,19 +872,35 @@ theorem wf_int (a : String) (n : Int) (ha : a ∈ Gen.INT_TYPE_ATTRIBUTES) : wel
   have : Gen.INT_TYPE_ATTRIBUTES.contains a = true := by simpa using ha
   simp [wellFormedEntry, hb, ha]
 
-/-- the configuration that `PLSSParser` hands down, before it is turned into text:
-    the object's own config, overridden by the locked-down parse parameters -/
-def handedCfg (a : ParserArgs) (c0 : Cfg) : Cfg :=
-  (((((if a.parseQQ then c0.set "parse_qq" (.b true) else c0).set "clean_qq" (.b a.cleanQQ)).setOpt
+/-- the object's config with `suppress_lot_divs` switched on when the object's attribute is on
+    (what `PLSSDesc.parse` decompiles and appends) -/
+def withSld (c : Cfg) (s : Bool) : Cfg := if s then c.set "suppress_lot_divs" (.b true) else c
+
+/-- the text `PLSSDesc.parse` gives to `PLSSParser` as `handed_down_config` -/
+def hdText (c : Cfg) (s : Bool) : Str := if s then toText c ++ S ",suppress_lot_divs" else toText c
+
+theorem effectiveDesc_handedDownConfig (d : DescObj) (kw : DescKw) :
+    (effectiveDesc d kw).handedDownConfig = hdText d.config (getB d.attrs "suppress_lot_divs") := rfl
+
+theorem withSld_wf (c : Cfg) (s : Bool) (h : CfgWF c) : CfgWF (withSld c s) := by
+  unfold withSld
+  split
+  · exact set_wf _ _ _ h (wf_bool _ _ (by decide))
+  · exact h
+
+/-- the configuration that `PLSSParser` hands down, before it is turned into text: the object's own config
+    (with `suppress_lot_divs` when the attribute is on), overridden by the locked-down parse parameters -/
+def handedCfg (a : ParserArgs) (c0 : Cfg) (s : Bool) : Cfg :=
+  (((((if a.parseQQ then (withSld c0 s).set "parse_qq" (.b true) else withSld c0 s).set "clean_qq" (.b a.cleanQQ)).setOpt
       "qq_depth_min" (optI a.qqDepthMin)).setOpt "qq_depth_max" (optI a.qqDepthMax)).setOpt
       "qq_depth" (optI a.qqDepth)).set "break_halves" (.b a.breakHalves)
 
-theorem handedCfg_wf (a : ParserArgs) (c0 : Cfg) (h : CfgWF c0) : CfgWF (handedCfg a c0) := by
+theorem handedCfg_wf (a : ParserArgs) (c0 : Cfg) (s : Bool) (h : CfgWF c0) : CfgWF (handedCfg a c0 s) := by
   unfold handedCfg
-  have h0 : CfgWF (if a.parseQQ then c0.set "parse_qq" (.b true) else c0) := by
+  have h0 : CfgWF (if a.parseQQ then (withSld c0 s).set "parse_qq" (.b true) else withSld c0 s) := by
     split
-    · exact set_wf _ _ _ h (wf_bool _ _ (by decide))
-    · exact h
+    · exact set_wf _ _ _ (withSld_wf c0 s h) (wf_bool _ _ (by decide))
+    · exact withSld_wf c0 s h
   have hoi : ∀ (n : String) (o : Option Int), n ∈ Gen.INT_TYPE_ATTRIBUTES →
       ∀ x, optI o = some x → wellFormedEntry (n, x) = true := by
     intro n o hn x hx
@@ -857,15 +910,15 @@ theorem handedCfg_wf (a : ParserArgs) (c0 : Cfg) (h : CfgWF c0) : CfgWF (handedC
   exact set_wf _ _ _ (setOpt_wf _ _ _ (setOpt_wf _ _ _ (setOpt_wf _ _ _ (set_wf _ _ _ h0 (wf_bool _ _ (by decide)))
     (hoi _ _ (by decide))) (hoi _ _ (by decide))) (hoi _ _ (by decide))) (wf_bool _ _ (by decide))
 
-theorem handedCfg_get (a : ParserArgs) (c0 : Cfg) (m : String) :
-    (handedCfg a c0).get m =
+theorem handedCfg_get (a : ParserArgs) (c0 : Cfg) (s : Bool) (m : String) :
+    (handedCfg a c0 s).get m =
       if m = "break_halves" then some (.b a.breakHalves)
       else if m = "qq_depth" then optI a.qqDepth
       else if m = "qq_depth_max" then optI a.qqDepthMax
       else if m = "qq_depth_min" then optI a.qqDepthMin
       else if m = "clean_qq" then some (.b a.cleanQQ)
       else if m = "parse_qq" ∧ a.parseQQ = true then some (.b true)
-      else c0.get m := by
+      else (withSld c0 s).get m := by
   have hset : ∀ (A : Attrs) (k : String) (v : CV), (A.set k v).get m = if m = k then some v else A.get m := by
     intro A k v
     by_cases h : m = k
@@ -880,17 +933,29 @@ theorem handedCfg_get (a : ParserArgs) (c0 : Cfg) (m : String) :
 
 /-- the hand-down, specified: when the object's config is well-formed, the handed-down text is accepted by `Config`
     and means exactly `handedCfg` -/
-theorem handedDownText_spec (a : ParserArgs) (c0 : Cfg) (hc : a.handedDownConfig = toText c0) (hw : CfgWF c0) :
+theorem handedDownText_spec (a : ParserArgs) (c0 : Cfg) (s : Bool) (hc : a.handedDownConfig = hdText c0 s)
+    (hw : CfgWF c0) :
     ∃ hd k, handedDownText a = .ok hd ∧ ofText hd = .ok k ∧
-      ∀ m ∈ Gen.CONFIG_ATTRIBUTES, k.get m = (handedCfg a c0).get m := by
+      ∀ m ∈ Gen.CONFIG_ATTRIBUTES, k.get m = (handedCfg a c0 s).get m := by
   have h1 : ∃ c1, ofText (if a.parseQQ then a.handedDownConfig ++ S ",parse_qq" else a.handedDownConfig) = .ok c1 ∧
-      ∀ b ∈ Gen.CONFIG_ATTRIBUTES, c1.get b = (if a.parseQQ then c0.set "parse_qq" (.b true) else c0).get b := by
+      ∀ b ∈ Gen.CONFIG_ATTRIBUTES,
+        c1.get b = (if a.parseQQ then (withSld c0 s).set "parse_qq" (.b true) else withSld c0 s).get b := by
     rw [hc]
-    cases a.parseQQ
-    · simp only [Bool.false_eq_true, if_false]
-      exact ofText_toText c0 hw
-    · simp only [if_true]
-      exact ofText_toText_parse_qq c0 hw
+    cases s <;> cases a.parseQQ
+    · have := ofText_toText_extras c0 hw [] (by intro x hx; cases hx)
+      simpa [hdText, withSld, extraText, setAll] using this
+    · have := ofText_toText_extras c0 hw ["parse_qq"] (by decide)
+      have ht : extraText ["parse_qq"] = S ",parse_qq" := by decide
+      rw [ht] at this
+      simpa [hdText, withSld, setAll] using this
+    · have := ofText_toText_extras c0 hw ["suppress_lot_divs"] (by decide)
+      have ht : extraText ["suppress_lot_divs"] = S ",suppress_lot_divs" := by decide
+      rw [ht] at this
+      simpa [hdText, withSld, setAll] using this
+    · have := ofText_toText_extras c0 hw ["suppress_lot_divs", "parse_qq"] (by decide)
+      have ht : extraText ["suppress_lot_divs", "parse_qq"] = S ",suppress_lot_divs" ++ S ",parse_qq" := by decide
+      rw [ht, ← List.append_assoc] at this
+      simpa [hdText, withSld, setAll] using this
   obtain ⟨c1, h11, h12⟩ := h1
   have hset : ∀ (A : Attrs) (k m : String) (v : CV), (A.set k v).get m = if m = k then some v else A.get m := by
     intro A k m v
@@ -900,31 +965,33 @@ theorem handedDownText_spec (a : ParserArgs) (c0 : Cfg) (hc : a.handedDownConfig
       simp only [get_set_ne _ _ _ _ this, h, if_false]
   have htt : toText (((((c1.set "clean_qq" (.b a.cleanQQ)).setOpt "qq_depth_min" (optI a.qqDepthMin)).setOpt
           "qq_depth_max" (optI a.qqDepthMax)).setOpt "qq_depth" (optI a.qqDepth)).set "break_halves" (.b a.breakHalves))
-      = toText (handedCfg a c0) := by
+      = toText (handedCfg a c0 s) := by
     apply toText_congr
     intro b hb
     unfold handedCfg
     simp only [hset, get_setOpt, h12 b hb]
-  obtain ⟨k, hk1, hk2⟩ := ofText_toText (handedCfg a c0) (handedCfg_wf a c0 hw)
-  refine ⟨toText (handedCfg a c0), k, ?_, hk1, hk2⟩
+  obtain ⟨k, hk1, hk2⟩ := ofText_toText (handedCfg a c0 s) (handedCfg_wf a c0 s hw)
+  refine ⟨toText (handedCfg a c0 s), k, ?_, hk1, hk2⟩
   unfold handedDownText
   simp only [h11, htt]
 
 /-- the tract-level settings that `PLSSDesc.parse` dictates to its tracts -/
 def handedNames : List String := ["parse_qq", "clean_qq", "qq_depth", "qq_depth_min", "qq_depth_max", "break_halves"]
 
-/-- MAIN (b), second half: two parses whose parser arguments agree (apart from the text of the object's own config)
-    hand down texts that configure the subordinate tracts identically in every tract-level setting that
-    `PLSSDesc.parse` controls — and in every other setting on which the two object configs agree -/
-theorem C13_handed_down_agree (a1 a2 : ParserArgs) (c1 c2 : Cfg) (hcore : a1.core = a2.core)
-    (h1 : a1.handedDownConfig = toText c1) (h2 : a2.handedDownConfig = toText c2) (hw1 : CfgWF c1) (hw2 : CfgWF c2) :
+/-- MAIN (b), second half: two parses whose parser arguments agree (apart from the handed-down config text, which is
+    the text of the object's own config, plus `,suppress_lot_divs` when the object's attribute is on) hand down texts
+    that configure the subordinate tracts identically in every tract-level setting that `PLSSDesc.parse` controls —
+    and in every other setting on which the two (augmented) object configs agree -/
+theorem C13_handed_down_agree (a1 a2 : ParserArgs) (c1 c2 : Cfg) (s1 s2 : Bool) (hcore : a1.core = a2.core)
+    (h1 : a1.handedDownConfig = hdText c1 s1) (h2 : a2.handedDownConfig = hdText c2 s2)
+    (hw1 : CfgWF c1) (hw2 : CfgWF c2) :
     ∃ hd1 hd2 k1 k2, handedDownText a1 = .ok hd1 ∧ handedDownText a2 = .ok hd2 ∧
       ofText hd1 = .ok k1 ∧ ofText hd2 = .ok k2 ∧
       (∀ m ∈ handedNames, (tractInitAttrs k1 (some a1.parseQQ)).get m = (tractInitAttrs k2 (some a2.parseQQ)).get m) ∧
-      (∀ m ∈ Gen.CONFIG_ATTRIBUTES, c1.get m = c2.get m →
+      (∀ m ∈ Gen.CONFIG_ATTRIBUTES, (withSld c1 s1).get m = (withSld c2 s2).get m →
         (tractInitAttrs k1 (some a1.parseQQ)).get m = (tractInitAttrs k2 (some a2.parseQQ)).get m) := by
-  obtain ⟨hd1, k1, e1, f1, g1⟩ := handedDownText_spec a1 c1 h1 hw1
-  obtain ⟨hd2, k2, e2, f2, g2⟩ := handedDownText_spec a2 c2 h2 hw2
+  obtain ⟨hd1, k1, e1, f1, g1⟩ := handedDownText_spec a1 c1 s1 h1 hw1
+  obtain ⟨hd2, k2, e2, f2, g2⟩ := handedDownText_spec a2 c2 s2 h2 hw2
   refine ⟨hd1, hd2, k1, k2, e1, e2, f1, f2, ?_, ?_⟩
   all_goals
     have hcore' : a1.parseQQ = a2.parseQQ ∧ a1.cleanQQ = a2.cleanQQ ∧ a1.qqDepth = a2.qqDepth ∧
@@ -951,22 +1018,97 @@ def tractAttrsHanded (a : ParserArgs) : Except PyErr Attrs :=
     | .error e => .error e
     | .ok k => .ok (tractInitAttrs k (some a.parseQQ))
 
-theorem tractAttrsHanded_agree (a1 a2 : ParserArgs) (c1 c2 : Cfg) (hcore : a1.core = a2.core)
-    (h1 : a1.handedDownConfig = toText c1) (h2 : a2.handedDownConfig = toText c2) (hw1 : CfgWF c1) (hw2 : CfgWF c2) :
+theorem tractAttrsHanded_agree (a1 a2 : ParserArgs) (c1 c2 : Cfg) (s1 s2 : Bool) (hcore : a1.core = a2.core)
+    (h1 : a1.handedDownConfig = hdText c1 s1) (h2 : a2.handedDownConfig = hdText c2 s2)
+    (hw1 : CfgWF c1) (hw2 : CfgWF c2) :
     ∃ A1 A2, tractAttrsHanded a1 = .ok A1 ∧ tractAttrsHanded a2 = .ok A2 ∧
       (∀ m ∈ handedNames, A1.get m = A2.get m) ∧
-      (∀ m ∈ Gen.CONFIG_ATTRIBUTES, c1.get m = c2.get m → A1.get m = A2.get m) := by
-  obtain ⟨hd1, hd2, k1, k2, e1, e2, f1, f2, g, g'⟩ := C13_handed_down_agree a1 a2 c1 c2 hcore h1 h2 hw1 hw2
+      (∀ m ∈ Gen.CONFIG_ATTRIBUTES, (withSld c1 s1).get m = (withSld c2 s2).get m → A1.get m = A2.get m) := by
+  obtain ⟨hd1, hd2, k1, k2, e1, e2, f1, f2, g, g'⟩ := C13_handed_down_agree a1 a2 c1 c2 s1 s2 hcore h1 h2 hw1 hw2
   refine ⟨_, _, ?_, ?_, g, g'⟩
   · unfold tractAttrsHanded; simp only [e1, f1]
   · unfold tractAttrsHanded; simp only [e2, f2]
 
+/-- what the tracts get for `suppress_lot_divs`: on, iff the object's attribute is on or its stored config says so -/
+theorem handed_sld (a : ParserArgs) (c : Cfg) (s : Bool) (hc : a.handedDownConfig = hdText c s) (hw : CfgWF c) :
+    ∃ A, tractAttrsHanded a = .ok A ∧
+      A.get "suppress_lot_divs" = some (.b (s || getB c "suppress_lot_divs")) := by
+  obtain ⟨hd, k, e, f, g⟩ := handedDownText_spec a c s hc hw
+  refine ⟨tractInitAttrs k (some a.parseQQ), by unfold tractAttrsHanded; simp only [e, f], ?_⟩
+  rw [tractInitAttrs_get, g _ (by decide), handedCfg_get]
+  simp only [String.reduceEq, false_and, if_false]
+  have hc1 : Gen.TRACT_ATTRIBUTES.contains "suppress_lot_divs" = true := by decide
+  simp only [hc1, if_true]
+  cases s
+  · simp only [withSld, Bool.false_eq_true, if_false, Bool.false_or]
+    unfold getB
+    cases hg : c.get "suppress_lot_divs" with
+    | none => rfl
+    | some v =>
+      have hwf := get_wf c hw _ _ hg
+      cases v with
+      | b x => rfl
+      | i x => simp [wellFormedEntry] at hwf; exact absurd hwf.1 (by decide)
+      | s x => simp [wellFormedEntry] at hwf
+  · simp only [withSld, if_true, get_set_eq, Bool.true_or]
+
+/-- THE REPAIRED BEHAVIOUR (formerly the finding `…_replaces_handed_down`): whatever the stored config of a PLSSDesc
+    contains — in particular a config assigned later that does not mention the setting — the tracts created by
+    `PLSSDesc.parse` start with `suppress_lot_divs` on whenever the PLSSDesc's own attribute is on; and they start with
+    it off when the attribute is off and the stored config does not set it.  (Exactly: on iff attribute or stored config.) -/
+theorem C13_suppress_lot_divs_survives_reassignment (d : DescObj) (kw : DescKw) (hw : CfgWF d.config) :
+    ∃ A, tractAttrsHanded (effectiveDesc d kw) = .ok A ∧
+      A.get "suppress_lot_divs" = some (.b (getB d.attrs "suppress_lot_divs" || getB d.config "suppress_lot_divs")) ∧
+      (getB d.attrs "suppress_lot_divs" = true → getB A "suppress_lot_divs" = true) ∧
+      (getB d.attrs "suppress_lot_divs" = false → d.config.get "suppress_lot_divs" = none →
+        getB A "suppress_lot_divs" = false) := by
+  obtain ⟨A, hA, hg⟩ := handed_sld (effectiveDesc d kw) d.config (getB d.attrs "suppress_lot_divs")
+    (effectiveDesc_handedDownConfig d kw) hw
+  refine ⟨A, hA, hg, ?_, ?_⟩
+  · intro h
+    rw [h] at hg
+    unfold getB
+    rw [hg]
+    rfl
+  · intro h hn
+    have : getB d.config "suppress_lot_divs" = false := by unfold getB; rw [hn]
+    rw [this, h] at hg
+    unfold getB
+    rw [hg]
+    rfl
+
+/-- the scenario of the former finding, through the model's `.config = …` operation: a PLSSDesc with the attribute on
+    is assigned ANY well-formed config that does not mention `suppress_lot_divs`; its tracts still get the setting -/
+theorem C13_suppress_lot_divs_survives_reassignment_obj (d0 : DescObj) (c : Cfg) (kw : DescKw)
+    (hs : getB d0.attrs "suppress_lot_divs" = true) (hc : c.get "suppress_lot_divs" = none) (hw : CfgWF c) :
+    ∃ d2 A, descSetConfig d0 (.obj c) = .ok d2 ∧ getB d2.attrs "suppress_lot_divs" = true ∧
+      tractAttrsHanded (effectiveDesc d2 kw) = .ok A ∧ getB A "suppress_lot_divs" = true := by
+  have hattr : getB (applyConfig d0.attrs Gen.PLSSDESC_ATTRIBUTES c) "suppress_lot_divs" = true := by
+    unfold getB at hs ⊢
+    rw [applyConfig_get, hc]
+    simp only [ite_self]
+    exact hs
+  obtain ⟨A, hA, _, h1, _⟩ := C13_suppress_lot_divs_survives_reassignment
+    { d0 with attrs := applyConfig d0.attrs Gen.PLSSDESC_ATTRIBUTES c, config := c } kw hw
+  exact ⟨_, A, descSetConfig_obj d0 c, hattr, hA, h1 hattr⟩
+
 theorem desc_bool_names_wf : ∀ n ∈ descBoolNames, isBoolAttr n.toList = true ∧ n ≠ "suppress_lot_divs" ∧
     n ∈ Gen.CONFIG_ATTRIBUTES := by decide
 
+theorem descInitAttrs_get_sld (c0 : Cfg) (lay : Option Str) (pq wait : Option Bool) :
+    (descInitAttrs c0 lay pq wait).get "suppress_lot_divs"
+      = (match c0.get "suppress_lot_divs" with | some v => some v | none => some (.b false)) := by
+  rw [descInitAttrs_get, applyConfig_get]
+  have h1 : ¬ ("suppress_lot_divs" = "layout" ∧ lay.isSome = true) := fun h => absurd h.1 (by decide)
+  have h2 : ¬ ("suppress_lot_divs" = "wait_to_parse" ∧ wait.isSome = true) := fun h => absurd h.1 (by decide)
+  have h3 : ¬ ("suppress_lot_divs" = "parse_qq" ∧ pq.isSome = true) := fun h => absurd h.1 (by decide)
+  have c1 : Gen.PLSSDESC_ATTRIBUTES.contains "suppress_lot_divs" = true := by decide
+  simp only [h1, h2, h3, if_false, c1, if_true]
+  cases c0.get "suppress_lot_divs" <;> rfl
+
 /-- MAIN (b), hand-down for the three channels of a Boolean setting: the subordinate tracts start from attribute maps
-    that agree on parse_qq, clean_qq, qq_depth, qq_depth_min, qq_depth_max, break_halves in all three channels;
-    and between "config at creation" and "keyword" the tracts get the same `Tract.parse` parameters altogether -/
+    that agree on suppress_lot_divs, parse_qq, clean_qq, qq_depth, qq_depth_min, qq_depth_max, break_halves in all
+    three channels; hence in all three channels the tracts get the same `Tract.parse` parameters altogether -/
 theorem C13_desc_bool_handed_down_three_channels (n : String) (hn : n ∈ descBoolNames) (d0 : DescObj) (c0 : Cfg)
     (lay : Option Str) (pq wait : Option Bool) (b : Bool) (kw : DescKw)
     (hd : d0.attrs = descInitAttrs c0 lay pq wait) (hcfg : d0.config = c0) (hw : CfgWF c0)
@@ -976,80 +1118,88 @@ theorem C13_desc_bool_handed_down_three_channels (n : String) (hn : n ∈ descBo
                                                 config := c0.set n (.b b) } kw) = .ok A1 ∧
       tractAttrsHanded (effectiveDesc d2 kw) = .ok A2 ∧
       tractAttrsHanded (effectiveDesc d0 (kw.withBool n b)) = .ok A3 ∧
-      (∀ m ∈ handedNames, A1.get m = A2.get m ∧ A2.get m = A3.get m) ∧
-      (∀ tkw, effectiveTract A1 tkw = effectiveTract A3 tkw) := by
+      (∀ m ∈ "suppress_lot_divs" :: handedNames, A1.get m = A2.get m ∧ A2.get m = A3.get m) ∧
+      (∀ tkw, effectiveTract A1 tkw = effectiveTract A2 tkw ∧ effectiveTract A2 tkw = effectiveTract A3 tkw) := by
   obtain ⟨d2, hs, h12, h23⟩ := C13_desc_bool_three_channels n hn d0 c0 lay pq wait b kw hd hpq hk
   obtain ⟨hbool, hsld, hcfgattr⟩ := desc_bool_names_wf n hn
+  obtain ⟨hP, _, _⟩ := desc_bool_names n hn
   have hw1 : CfgWF (c0.set n (.b b)) := set_wf _ _ _ hw (wf_bool n b hbool)
   have hw2 : CfgWF (Cfg.set [] n (.b b)) := set_wf _ _ _ (fun e he => by cases he) (wf_bool n b hbool)
-  have hc2 : d2.config = Cfg.set [] n (.b b) := by
+  have hd2 : d2 = { d0 with attrs := applyConfig d0.attrs Gen.PLSSDESC_ATTRIBUTES (Cfg.set [] n (.b b)),
+                            config := Cfg.set [] n (.b b) } := by
     rw [descSetConfig_obj] at hs; cases hs; rfl
-  obtain ⟨A1, A2, t1, t2, g12, _⟩ := tractAttrsHanded_agree _ _ (c0.set n (.b b)) (Cfg.set [] n (.b b)) h12 rfl
-    (by show toText d2.config = _; rw [hc2]) hw1 hw2
-  obtain ⟨A2', A3, t2', t3, g23, _⟩ := tractAttrsHanded_agree _ _ (Cfg.set [] n (.b b)) c0 h23
-    (by show toText d2.config = _; rw [hc2]) (by show toText d0.config = _; rw [hcfg]) hw2 hw
-  obtain ⟨A1', A3', t1', t3', g13, g13'⟩ := tractAttrsHanded_agree _ _ (c0.set n (.b b)) c0 (h12.trans h23) rfl
-    (by show toText d0.config = _; rw [hcfg]) hw1 hw
-  rw [t2] at t2'; cases t2'
+  -- the PLSSDesc's own attribute is the same in the three channels
+  have hsne : "suppress_lot_divs" ≠ n := fun e => hsld e.symm
+  have hs1 : getB (descInitAttrs (c0.set n (.b b)) lay pq wait) "suppress_lot_divs" = getB d0.attrs "suppress_lot_divs" := by
+    unfold getB
+    rw [hd, descInitAttrs_get_sld, descInitAttrs_get_sld, get_set_ne _ _ _ _ hsld]
+  have hs2 : getB d2.attrs "suppress_lot_divs" = getB d0.attrs "suppress_lot_divs" := by
+    unfold getB
+    rw [hd2]
+    simp only []
+    rw [(tract_assignment_setFrom d0.attrs Gen.PLSSDESC_ATTRIBUTES n (.b b) hP).2 _ hsne]
+  -- a stored `suppress_lot_divs` implies the attribute
+  have himp : getB c0 "suppress_lot_divs" = true → getB d0.attrs "suppress_lot_divs" = true := by
+    intro h
+    unfold getB at h ⊢
+    rw [hd, descInitAttrs_get_sld]
+    cases hg : c0.get "suppress_lot_divs" with
+    | none => rw [hg] at h; cases h
+    | some v => rw [hg] at h; exact h
+  have hc1 : getB (c0.set n (.b b)) "suppress_lot_divs" = getB c0 "suppress_lot_divs" := by
+    unfold getB; rw [get_set_ne _ _ _ _ hsld]
+  have hc2 : getB (Cfg.set [] n (.b b)) "suppress_lot_divs" = false := by
+    unfold getB; rw [get_single]; simp [hsne]
+  obtain ⟨A1, t1, q1⟩ := handed_sld
+    (effectiveDesc { d0 with attrs := descInitAttrs (c0.set n (.b b)) lay pq wait, config := c0.set n (.b b) } kw)
+    (c0.set n (.b b)) _ (effectiveDesc_handedDownConfig _ kw) hw1
+  obtain ⟨A2, t2, q2⟩ := handed_sld (effectiveDesc d2 kw) (Cfg.set [] n (.b b)) (getB d2.attrs "suppress_lot_divs")
+    (by rw [effectiveDesc_handedDownConfig, hd2]) hw2
+  obtain ⟨A3, t3, q3⟩ := handed_sld (effectiveDesc d0 (kw.withBool n b)) c0 (getB d0.attrs "suppress_lot_divs")
+    (by rw [effectiveDesc_handedDownConfig, hcfg]) hw
+  simp only [] at q1
+  rw [hs1, hc1] at q1
+  rw [hs2, hc2] at q2
+  have hq : (getB d0.attrs "suppress_lot_divs" || getB c0 "suppress_lot_divs") = getB d0.attrs "suppress_lot_divs" := by
+    cases h : getB c0 "suppress_lot_divs"
+    · simp
+    · simp [himp h]
+  rw [hq] at q1 q3
+  rw [Bool.or_false] at q2
+  obtain ⟨A1', A2', t1', t2', g12, _⟩ := tractAttrsHanded_agree _ _ (c0.set n (.b b)) (Cfg.set [] n (.b b)) _ _ h12
+    (effectiveDesc_handedDownConfig _ kw) (by rw [effectiveDesc_handedDownConfig, hd2]) hw1 hw2
+  obtain ⟨A2'', A3', t2'', t3', g23, _⟩ := tractAttrsHanded_agree _ _ (Cfg.set [] n (.b b)) c0 _ _ h23
+    (by rw [effectiveDesc_handedDownConfig, hd2]) (by rw [effectiveDesc_handedDownConfig, hcfg]) hw2 hw
   rw [t1] at t1'; cases t1'
+  rw [t2] at t2' t2''; cases t2'; cases t2''
   rw [t3] at t3'; cases t3'
-  refine ⟨d2, A1, A2, A3, hs, t1, t2, t3, fun m hm => ⟨g12 m hm, g23 m hm⟩, fun tkw => ?_⟩
-  apply effectiveTract_congr
-  intro m hm
-  by_cases hh : m ∈ handedNames
-  · exact g13 m hh
-  · have hm' : m = "suppress_lot_divs" := by
-      simp only [tractParseNames, handedNames, List.mem_cons, List.not_mem_nil, or_false] at hm hh
-      rcases hm with h | h | h | h | h | h <;> simp_all
-    subst hm'
-    exact g13' _ (by decide) (get_set_ne _ _ _ _ hsld)
+  have hall : ∀ m ∈ "suppress_lot_divs" :: handedNames, A1.get m = A2.get m ∧ A2.get m = A3.get m := by
+    intro m hm
+    rcases List.mem_cons.1 hm with rfl | hm
+    · exact ⟨by rw [q1, q2], by rw [q2, q3]⟩
+    · exact ⟨g12 m hm, g23 m hm⟩
+  refine ⟨d2, A1, A2, A3, hs, t1, t2, t3, hall, fun tkw => ⟨?_, ?_⟩⟩
+  · exact effectiveTract_congr _ _ _ (fun m hm => (hall m (by revert m; decide)).1)
+  · exact effectiveTract_congr _ _ _ (fun m hm => (hall m (by revert m; decide)).2)
 
 /-- a PLSSDesc built (unparsed) from the config `c` -/
 def exDesc (c : Cfg) : DescObj :=
   { origDesc := S "T154N-R97W Sec 14: NE/4", source := none, ppDesc := [], attrs := descInitAttrs c none none none, config := c }
 
-example : ∃ A1 A3,
+example : ∃ A1 A2 A3,
     tractAttrsHanded (effectiveDesc (exDesc (Cfg.set [("suppress_lot_divs", .b true)] "clean_qq" (.b true))) {}) = .ok A1 ∧
+    tractAttrsHanded (effectiveDesc { exDesc (Cfg.set [] "clean_qq" (.b true)) with
+        attrs := applyConfig (descInitAttrs [("suppress_lot_divs", .b true)] none none none) Gen.PLSSDESC_ATTRIBUTES
+                   (Cfg.set [] "clean_qq" (.b true)) } {}) = .ok A2 ∧
     tractAttrsHanded (effectiveDesc (exDesc [("suppress_lot_divs", .b true)]) { cleanQQ := some true }) = .ok A3 ∧
-    ∀ tkw, effectiveTract A1 tkw = effectiveTract A3 tkw := by
-  obtain ⟨d2, A1, A2, A3, _, t1, _, t3, _, h⟩ := C13_desc_bool_handed_down_three_channels "clean_qq" (by decide)
+    ∀ tkw, effectiveTract A1 tkw = effectiveTract A2 tkw ∧ effectiveTract A2 tkw = effectiveTract A3 tkw := by
+  obtain ⟨d2, A1, A2, A3, hs, t1, t2, t3, _, h⟩ := C13_desc_bool_handed_down_three_channels "clean_qq" (by decide)
     (exDesc [("suppress_lot_divs", .b true)])
     [("suppress_lot_divs", .b true)] none none none true {} rfl rfl (by intro e he; revert e; decide)
     (fun h => absurd h (by decide)) rfl
-  exact ⟨A1, A3, t1, t3, h⟩
-
-/-- FINDING (not a three-channel equivalence; reproduced on the Python code): assigning `.config` later REPLACES the
-    stored Config object while the attributes are only merged.  So a setting of the creation config that is not a
-    parameter of `PLSSDesc.parse` (here `suppress_lot_divs`) stays an attribute of the PLSSDesc but is no longer handed
-    down to the tracts, whereas with the config given at creation it is. -/
-theorem C13_assigned_config_replaces_handed_down_partial (a1 a2 : ParserArgs) (hcore : a1.core = a2.core)
-    (h1 : a1.handedDownConfig = toText (Cfg.set [("suppress_lot_divs", .b true)] "clean_qq" (.b true)))
-    (h2 : a2.handedDownConfig = toText (Cfg.set [] "clean_qq" (.b true))) :
-    ∃ A1 A2, tractAttrsHanded a1 = .ok A1 ∧ tractAttrsHanded a2 = .ok A2 ∧
-      (∀ m ∈ handedNames, A1.get m = A2.get m) ∧
-      getB A1 "suppress_lot_divs" = true ∧ getB A2 "suppress_lot_divs" = false := by
-  have hw1 : CfgWF (Cfg.set [("suppress_lot_divs", .b true)] "clean_qq" (.b true)) := by
-    intro e he; revert e; decide
-  have hw2 : CfgWF (Cfg.set [] "clean_qq" (.b true)) := by
-    intro e he; revert e; decide
-  obtain ⟨hd1, k1, e1, f1, g1⟩ := handedDownText_spec a1 _ h1 hw1
-  obtain ⟨hd2, k2, e2, f2, g2⟩ := handedDownText_spec a2 _ h2 hw2
-  obtain ⟨A1, A2, t1, t2, g, _⟩ := tractAttrsHanded_agree a1 a2 _ _ hcore h1 h2 hw1 hw2
-  refine ⟨A1, A2, t1, t2, g, ?_, ?_⟩
-  · unfold tractAttrsHanded at t1
-    simp only [e1, f1] at t1
-    cases t1
-    unfold getB
-    rw [tractInitAttrs_get, g1 _ (by decide), handedCfg_get]
-    simp only [String.reduceEq, false_and, if_false]
-    decide
-  · unfold tractAttrsHanded at t2
-    simp only [e2, f2] at t2
-    cases t2
-    unfold getB
-    rw [tractInitAttrs_get, g2 _ (by decide), handedCfg_get]
-    simp only [String.reduceEq, false_and, if_false]
-    decide
+  rw [descSetConfig_obj] at hs
+  cases hs
+  exact ⟨A1, A2, A3, t1, t2, t3, h⟩
 
 /-! ## (c) Summary: keyword > attribute (creation argument > config) > class default -/
 
@@ -1259,13 +1409,38 @@ example := C13_desc_int_three_channels "qq_depth_max" (by decide) (exDesc [("qq_
 example := C13_desc_int_three_channels "qq_depth" (by decide) (exDesc [("qq_depth_min", .i 1)]) [("qq_depth_min", .i 1)]
   none none none 2 rfl (fun h => absurd rfl h)
 
-/-- the finding, on the two concrete parser-argument records of the two channels -/
-example := C13_assigned_config_replaces_handed_down_partial
-  (effectiveDesc (exDesc (Cfg.set [("suppress_lot_divs", .b true)] "clean_qq" (.b true))) {})
-  (effectiveDesc { exDesc (Cfg.set [] "clean_qq" (.b true)) with
-      attrs := applyConfig (descInitAttrs [("suppress_lot_divs", .b true)] none none none) Gen.PLSSDESC_ATTRIBUTES
-                 (Cfg.set [] "clean_qq" (.b true)) } {})
-  rfl rfl rfl
+/-- the scenario of the former finding: creation config `suppress_lot_divs,wait_to_parse`, then `.config = "parse_qq"` -/
+def exCreated : DescObj :=
+  exDesc [("suppress_lot_divs", .b true), ("wait_to_parse", .b true)]
+
+example : ∃ d2 A, descSetConfig exCreated (.obj [("parse_qq", .b true)]) = .ok d2 ∧
+    getB d2.attrs "suppress_lot_divs" = true ∧
+    tractAttrsHanded (effectiveDesc d2 {}) = .ok A ∧ getB A "suppress_lot_divs" = true :=
+  C13_suppress_lot_divs_survives_reassignment_obj exCreated [("parse_qq", .b true)] {} (by decide) (by decide)
+    (by intro e he; revert e; decide)
+
+/-- the same scenario evaluated by the kernel on the config TEXTS, in both orders: creation config
+    `"suppress_lot_divs,wait_to_parse"` then `.config = "parse_qq"`, versus creation config `"suppress_lot_divs,parse_qq"` -/
+def scenarioLater : Except PyErr Attrs :=
+  match Config.ofText (S "suppress_lot_divs,wait_to_parse") with
+  | .error e => .error e
+  | .ok c =>
+    match descSetConfig (exDesc c) (.text (S "parse_qq")) with
+    | .error e => .error e
+    | .ok d2 => tractAttrsHanded (effectiveDesc d2 {})
+
+def scenarioAtCreation : Except PyErr Attrs :=
+  match Config.ofText (S "suppress_lot_divs,parse_qq") with
+  | .error e => .error e
+  | .ok c => tractAttrsHanded (effectiveDesc (exDesc c) {})
+
+/-- (suppress_lot_divs, parse_qq) as the subordinate tracts receive them -/
+def sldAndPq (r : Except PyErr Attrs) : Option (Bool × Bool) :=
+  match r with | .ok A => some (getB A "suppress_lot_divs", getB A "parse_qq") | .error _ => none
+
+/-- both orders hand `suppress_lot_divs` (and `parse_qq`) down to the tracts -/
+example : sldAndPq scenarioLater = some (true, true) ∧ sldAndPq scenarioAtCreation = some (true, true) := by
+  decide +kernel
 
 #print axioms C13_tract_creation_eq_assignment
 #print axioms C13_tract_config_channels
@@ -1282,7 +1457,8 @@ example := C13_assigned_config_replaces_handed_down_partial
 #print axioms C13_desc_int_three_channels
 #print axioms C13_handed_down_agree
 #print axioms C13_desc_bool_handed_down_three_channels
-#print axioms C13_assigned_config_replaces_handed_down_partial
+#print axioms C13_suppress_lot_divs_survives_reassignment
+#print axioms C13_suppress_lot_divs_survives_reassignment_obj
 #print axioms C13_keyword_beats_attribute_beats_default_tract
 #print axioms C13_keyword_beats_attribute_beats_default_desc
 #print axioms C13_keyword_beats_attribute_beats_default
